@@ -119,7 +119,18 @@ def run(ctx) -> list[Inst]:
 def _worklist(w: ast.While, cfg=None):
     if not isinstance(w.test, ast.Name):
         # `while frontier != []` / len(frontier) > 0
-        names = [x.id for x in ast.walk(w.test) if isinstance(x, ast.Name)]
+        names = [x.id for x in ast.walk(w.test) if isinstance(x, ast.Name) and x.id != 'len']
+        lens = [x.args[0].id for x in ast.walk(w.test) if isinstance(x, ast.Call) and isinstance(x.func, ast.Name)
+                and x.func.id == 'len' and len(x.args) == 1 and isinstance(x.args[0], ast.Name)]
+        if len(names) == 2 and len(lens) == 1 and isinstance(w.test, ast.Compare) and len(w.test.ops) == 1 \
+                and isinstance(w.test.ops[0], (ast.Lt, ast.Gt, ast.NotEq)):
+            # index scan of a list that grows while it is scanned: `while i < len(work)`; i must advance
+            idx = [nm for nm in names if nm != lens[0]]
+            adv = any(isinstance(x, ast.AugAssign) and isinstance(x.target, ast.Name) and x.target.id == idx[0]
+                      and isinstance(x.op, ast.Add) for x in ast.walk(w)) if idx else False
+            if not adv:
+                return False, 'the scan index is not advanced in the loop'
+            names = [lens[0]]
         if len(names) != 1:
             return False, 'loop condition is not a frontier variable'
         W = names[0]
